@@ -16,7 +16,9 @@ For every line of a session the driver
     The search is bounded three ways — scheduler fuel (`quiesceWith`), the beam of `beam` worlds per agent, three fixed
     schedules per op.  A world whose scheduler runs out of fuel, or that falls off the beam, is dropped UNREFUTED; once
     that has happened in a session "no world left" is INCONCLUSIVE (`Res.inconclusive`, model output = implementation's,
-    replay of the session stops, the monitor goes on), never `rejected`.
+    replay of the session stops, the monitor goes on), never `rejected`.  Since only three schedules per operation are
+    explored, "no explored world agrees" is INCONCLUSIVE as well: the verdicts of this component come from the spec
+    monitor; the model replay contributes acceptances (witnesses that the model explains the recorded behaviour).
 -/
 namespace Driver.CloseSys
 open IceModel.CloseSys IceSpec.C08 Driver
@@ -632,7 +634,11 @@ def step (s : State) (toks : List String) (impl : String) : State × Res :=
             let why := match results.head? with
               | some r => (r.compare d).getD "no world"
               | none => "no world"
-            (s.setWs ag (results.take 1), some (ag ++ ": " ++ why), none)
+            -- only THREE fixed greedy schedules of the model are explored per operation: that none of them comes to
+            -- rest in the observed digest does not show that no execution of the model does — inconclusive, never a
+            -- rejection (false alarm of thorough seed 7: a handler that calls Close while another handler is parked)
+            (s.setWs ag (results.take 1), none,
+              some (ag ++ ": none of the explored schedules of the model ends in the observed digest (" ++ why ++ "); the search is not exhaustive"))
         else
           let dd := dedupe good
           let lossy := lossy.orElse fun _ =>
